@@ -227,8 +227,13 @@ CONFIG = {
         "rule": CHAN_MODEL + "non-trivial = a sequence containing rollback, partial re-read (>=1, < pending), second rollback, then commit; or a Close/cancel with a Get pending; distinct = hash of the executed op trace. "
                 "Plus chanlin: free-running concurrent programs (2-4 goroutines x 1-9 Get/Commit/Rollback/Buffer/Close ops, a concurrent feeder whose sends are operations too, source cap 0/1/4/16) "
                 "whose recorded call/return history is checked for linearizability against the same sequential model by porcupine (a Get error is admissible only if its own context was "
-                "cancelled or the Channel is closed); non-trivial = >=6 operations with operations of different goroutines overlapping.",
+                "cancelled or the Channel is closed); non-trivial = >=6 operations with operations of different goroutines overlapping. "
+                "chanrace: a barrier-synchronised race lane — 40-300 rounds per case in which two operations drawn from Get/Rollback/Commit/Buffer are released together with sweeping spin "
+                "offsets, separated by sequential probes; the whole history is checked by porcupine. chanbulk: large pending buffers (batches of 64-700 values taken, optionally replayed, then "
+                "committed) while 1-3 goroutines call Buffer() continuously: every snapshot must be a contiguous run of the source stream.",
         "jobs": [chanstep("C13", 24000, 800000),
+                 {"name": "chanrace", "test": "TestChanRace", "checks": {"quick": 3000, "thorough": 150000}, "shards": {"quick": 6, "thorough": 16}, "stall_sig": "C13/stall"},
+                 {"name": "chanbulk", "test": "TestChanBulk", "checks": {"quick": 240, "thorough": 12000}, "shards": {"quick": 4, "thorough": 8}, "stall_sig": "C13/stall"},
                  {"name": "chanlin", "test": "TestChanLin", "checks": {"quick": 40000, "thorough": 2000000}, "shards": {"quick": 8, "thorough": 16}, "env": {"VKIT_PROFILE": "C13"}}],
     },
     "C01": {
